@@ -1,0 +1,1 @@
+//! Verification hooks: journal (see verif/mod.rs).
